@@ -495,6 +495,10 @@ func streamChan(o *Out, r *rand.Rand, n int, thorough bool) {
 		{"go-literal-defers-run-on-runtime-error", "out = make(chan int64, 4)\ndone = make(chan bool, 1)\ngo func(k) {\ndefer func() { done <- true }()\ndefer func() { close(out) }()\nout <- k\nx = [1][5]\nout <- 99\n}(7)\nr = []\nfor v in out {\nr += v\n}\n[r, <-done]", "[[7],true]"},
 		{"go-literal-defers-run-on-send-on-closed", "c = make(chan int64, 1)\nclose(c)\ndone = make(chan int64, 1)\ngo func() {\ndefer func() { done <- 5 }()\nc <- 1\n}()\n<-done", "5"},
 		{"go-named-defers-run-on-failure", "out = make(chan int64, 4)\nfunc stage(k) {\ndefer func() { close(out) }()\nout <- k\nthrow \"failed\"\n}\ngo stage(3)\nr = []\nfor v in out {\nr += v\n}\nr", "[3]"},
+		// a function that starts its worker with go func(){...}() over its own parameters / locals and returns at once: the goroutine keeps its scope
+		{"generator-idiom", "func source(n) {\nc = make(chan int64)\ngo func() {\nfor i = 0; i < n; i++ {\nc <- i\n}\nclose(c)\n}()\nreturn c\n}\nr = []\nfor v in source(5) {\nr += v\n}\nr", "[0,1,2,3,4]"},
+		{"generator-pipeline", "func source(n) {\nc = make(chan int64)\ngo func() {\nfor i = 1; i <= n; i++ {\nc <- i\n}\nclose(c)\n}()\nreturn c\n}\nfunc double(src) {\nout = make(chan int64)\ngo func() {\nfor v in src {\nout <- v * 2\n}\nclose(out)\n}()\nreturn out\n}\nn = 2\nc = nil\nr = []\nfor v in double(double(source(4))) {\nr += v\n}\nr", "[4,8,12,16]"},
+		{"generator-locals", "func ticker(label, k) {\nvar out = make(chan string, 1)\nvar count = k\ngo func() {\nfor count > 0 {\nout <- label + count\ncount--\n}\nclose(out)\n}()\nreturn out\n}\na = ticker(\"a\", 2)\nb = ticker(\"b\", 2)\n[<-a, <-b, <-a, <-b]", "[a2,b2,a1,b1]"},
 		// a for-in over a channel takes ONE item per round: what it has not handed to its body is still in the channel
 		{"range-left-early-rest-stays", "c = make(chan int64, 10)\nfor i = 0; i < 10; i++ {\nc <- i\n}\nclose(c)\nfirst = []\nfor v in c {\nfirst += v\nif v == 2 {\nbreak\n}\n}\nrest = []\nfor v in c {\nrest += v\n}\n[first, rest]", "[[0,1,2],[3,4,5,6,7,8,9]]"},
 		{"range-body-receives-from-same", "c = make(chan int64, 8)\nfor i = 0; i < 8; i++ {\nc <- i\n}\nclose(c)\npairs = []\nfor a in c {\nb = <-c\npairs += a * 10 + b\n}\npairs", "[1,23,45,67]"},
